@@ -21,12 +21,19 @@ BATCH = 6
 ASSUMPTIONS = [
     "the reference for step j is the same query issued as the first query of a fresh fork of a pristine interpreter "
     "on an identically built world (with the same preceding mutators applied): no knowledge of which caches exist",
-    "outcomes compare exactly for structure, strings, ints and error classes, rtol 1e-9 for floats (NaN equals NaN)",
+    "outcomes compare exactly for structure, strings, ints and error classes, rtol 1e-13 for floats (NaN equals NaN); "
+    "on the pinned tree every float compared was bit-identical",
     "cache attributes (interpolators, CoolProp state, loaded kernels / reference curves) are excluded from the purity "
     "snapshot - the property calls them invisible; everything else observable is included",
     "no exception is injected into library code: the property speaks about queries, the fault dimension is refused "
     "queries and unavailable thermodynamic lookups",
 ]
+
+
+# Every float compared on the pinned tree so far was bit-identical between the session and the fresh reference; the
+# tolerance only forgives last-bit noise.  A solver warm-started from an earlier query (1e-11 .. 1e-9 off) is history
+# dependence and must be seen.
+RTOL = 1e-13
 
 
 def tier_runs(tier):
@@ -105,7 +112,7 @@ def gen_query(rng, world, heavy_w):
                  unit=rng.choice([None, None, "bar"]))
     elif g == "model_query":
         q.update(q=rng.choice(["m_loading_at", "m_pressure_at", "m_spreading_pressure_at", "m_pressure", "m_loading"]), iso=r["model"],
-                 x=rng.choice([0.5, 1.5, 4.0, [0.2, 2.0], 0.0]),
+                 x=rng.choice([0.5, 1.5, 4.0, [0.2, 2.0], [0.4, 3.9], [1.0, 3.0], 0.0]),
                  kw=rng.choice([{}, {}, {"pressure_unit": "kPa"}, {"loading_unit": "mol"}, {"pressure_mode": "relative"}]))
         if q["q"] == "m_spreading_pressure_at":
             q["kw"] = rng.choice([{}, {}, {"pressure_unit": "kPa"}])
@@ -238,6 +245,14 @@ def gen_related(rng, world, prev):
         solid = {"molecular_diameter": 0.31, "polarizability": 1.9e-3, "magnetic_susceptibility": 9.5e-8, "surface_density": 2.4e19}
         q["kw"] = rng.choice([{}, {"adsorbate_model": ar_like}, {"material_model": solid}, {"adsorbate_model": ar_like, "material_model": solid},
                               {"psd_model": "RY"}, {"material_model": "AlSiOxideIon"}, dict(prev.get("kw") or {})])
+        return q
+    if g == "model_query":
+        if isinstance(prev["x"], list):
+            q["x"] = rng.choice([[0.2, 2.0], [0.4, 3.9], [1.0, 3.0], [0.05, 4.4]])
+        else:
+            q["x"] = rng.choice([0.5, 1.5, 4.0, 4.4])
+        if rng.random() < 0.3:
+            q["q"] = rng.choice(["m_loading_at", "m_pressure_at", "m_spreading_pressure_at"])
         return q
     if g == "fit" and isinstance(prev.get("model"), str):
         # the same model fitted again without / with other bounds, or the Henry-constant analysis that fits a Henry model
@@ -616,7 +631,7 @@ def execute(ctx, world, rng=None, steps=None, cfg=None):
                     pending = copy.deepcopy(prev)
                 elif cfg["mutators"] and rng.random() < 0.12:
                     q = gen_mutator(rng, world)
-                elif prev is not None and prev["g"] in ("interp", "spread", "adsorbate", "n2char", "fit") and rng.random() < cfg["related_p"]:
+                elif prev is not None and prev["g"] in ("interp", "spread", "adsorbate", "n2char", "fit", "model_query") and rng.random() < cfg["related_p"]:
                     q = gen_related(rng, world, prev)
                 else:
                     q = gen_query(rng, world, cfg["heavy_w"])
@@ -656,7 +671,7 @@ def execute(ctx, world, rng=None, steps=None, cfg=None):
             ref = zyg.call({"cmd": "ref", "mutators": mutators, "q": q}, timeout=600)
             if "died" in ref:
                 raise HarnessError("reference child died: " + json.dumps(ref)[:300])
-            d = dg.diff(out, ref["out"], stats=stats)
+            d = dg.diff(out, ref["out"], rtol=RTOL, stats=stats)
             events.append([qc, out[0] if not dg.is_error(out) else out[1], dg.sha(out)[:16]])
             pairs.add(r["cache"] + "||" + qc.split("[")[0] + "|" + (q.get("branch") or "") + "|" + str(q.get("kind", "")))
             if prev is not None:
